@@ -325,6 +325,24 @@ class Anchors:
         raise AnalysisError("anchor-missing wrapped-context attribute")
 
     @cached_property
+    def children_attr(self) -> str:
+        """Attribute of the component context holding its child component contexts: the
+        constructor parameter annotated as a mapping of component contexts."""
+        init = self.ComponentContext.methods.get("__init__")
+        if init is None:
+            raise AnalysisError("anchor-missing ComponentContext.__init__")
+        cname = self.ComponentContext.name
+        for p_ in init.params:
+            ann = init.param_annotation(p_)
+            if ann is not None and cname in ast.unparse(ann) and ("dict" in ast.unparse(ann) or "Mapping" in ast.unparse(ann)):
+                for n in walk_own(init.node):
+                    if isinstance(n, (ast.Assign, ast.AnnAssign)) and isinstance(n.value, ast.Name) and n.value.id == p_:
+                        for t in (n.targets if isinstance(n, ast.Assign) else [n.target]):
+                            if self_attr(t):
+                                return self_attr(t)
+        raise AnalysisError("anchor-missing child-contexts attribute of the component context")
+
+    @cached_property
     def start_component(self) -> FuncInfo:
         f = self.p.public("start_component")
         if not isinstance(f, FuncInfo):
